@@ -98,6 +98,7 @@ type c13Env struct {
 	scenario string
 	subject0 string
 	revokes  int
+	evicts   int
 	class0   int // class code of the initial certificate (generation 1)
 }
 
@@ -284,6 +285,29 @@ func (e *c13Env) newestCert0() (int, string) {
 	return gen, hash
 }
 
+// certHash0: hash of the cached certificate of the given generation whose subject is subject0 ("" if none).
+func (e *c13Env) certHash0(gen int) string {
+	certs, _ := certmagic.VerifCacheSnapshot(e.cfg)
+	for _, c := range certs {
+		if len(c.Names) > 0 && c.Names[0] == e.subject0 && c02IDOfSerial(c.Serial) == gen {
+			return c.Hash
+		}
+	}
+	return ""
+}
+
+// workerAtIssuer0: some goroutine for name 0 is held at the issuer.
+func (e *c13Env) workerAtIssuer0() bool {
+	e.mu.Lock()
+	defer e.mu.Unlock()
+	for _, th := range e.threads {
+		if th.name == 0 && th.gate != nil && th.gate.kind == "issue" {
+			return true
+		}
+	}
+	return false
+}
+
 // allAtRest0: every goroutine for name 0 has returned / exited.
 func (e *c13Env) allAtRest0() bool {
 	e.mu.Lock()
@@ -340,7 +364,7 @@ func (e *c13Env) arrive(tid, name int) {
 		switch {
 		case err != nil:
 			r.kind, r.err = "err", err.Error()
-		case cert == nil || len(cert.Certificate) == 0:
+		case cert == nil || len(cert.Certificate) == 0 || cert.PrivateKey == nil: // incomplete: no chain or no private key
 			r.kind = "empty"
 		default:
 			leaf := cert.Leaf
@@ -552,6 +576,9 @@ func (e *c13Env) observe(enc *emit.Enc, act c13Action, nBefore int) (c13Seen, er
 		}
 	case "cancel":
 		enc.Int(1).Int(act.T).Int(4)
+	case "evict":
+		// MEvictCert name 0, certificate (generation, class, revoked): removal is by generation
+		enc.Int(3).Int(0).Int(act.T).Int(e.class0).Bool(false)
 	case "revoke":
 		// MSetCert name 0, certificate (generation, class, revoked)
 		cls := 0
@@ -569,11 +596,11 @@ func (e *c13Env) observe(enc *emit.Enc, act c13Action, nBefore int) (c13Seen, er
 	// order hint for the model's replay of concurrent wake-ups: the goroutine acted upon first,
 	// then those that are not waiting now (they won whatever race there was), then the waiters
 	var first, second []int
-	if act.Kind != "arrive" && act.Kind != "revoke" {
+	if act.Kind != "arrive" && act.Kind != "revoke" && act.Kind != "evict" {
 		first = append(first, act.T)
 	}
 	for _, th := range e.threads {
-		if act.Kind != "arrive" && act.Kind != "revoke" && th.tid == act.T {
+		if act.Kind != "arrive" && act.Kind != "revoke" && act.Kind != "evict" && th.tid == act.T {
 			continue
 		}
 		if strings.HasPrefix(th.pos, "wait-") {
@@ -642,7 +669,7 @@ func c13RunCase(w *emit.Writer, cs *c13Case, desc map[string]any) error {
 		env.mu.Lock()
 		nBefore := len(env.threads)
 		var th *c13Thread
-		if act.Kind != "arrive" && act.Kind != "revoke" {
+		if act.Kind != "arrive" && act.Kind != "revoke" && act.Kind != "evict" {
 			if act.T < 0 || act.T >= len(env.threads) {
 				env.mu.Unlock()
 				return fmt.Errorf("no thread %d", act.T)
@@ -678,6 +705,15 @@ func c13RunCase(w *emit.Writer, cs *c13Case, desc map[string]any) error {
 			g.release <- out
 		case "cancel":
 			th.cancel()
+		case "evict":
+			// Cache.Remove of the cached certificate of generation act.T for name 0 (what a capacity
+			// eviction caused by another name's certificate, or RemoveManaged, does)
+			hash := env.certHash0(act.T)
+			if hash == "" {
+				return fmt.Errorf("evict: no cached certificate of generation %d for name 0", act.T)
+			}
+			env.cache.Remove([]string{hash})
+			env.evicts++
 		case "revoke":
 			// the newest cached certificate for name 0 gets the OCSP status Revoked (act.T = its generation)
 			gen, hash := env.newestCert0()
@@ -720,6 +756,8 @@ func c13RunCase(w *emit.Writer, cs *c13Case, desc map[string]any) error {
 		case "revoke":
 			g, _ := env.newestCert0()
 			applicable = g == a.T
+		case "evict":
+			applicable = env.certHash0(a.T) != ""
 		}
 		env.mu.Unlock()
 		if !applicable || unsettled {
@@ -759,6 +797,13 @@ func c13RunCase(w *emit.Writer, cs *c13Case, desc map[string]any) error {
 			}
 			nThreads := len(env.threads)
 			env.mu.Unlock()
+			// interference: the certificate under renewal (generation 1) leaves the cache while the worker
+			// is at the issuer
+			if strings.HasPrefix(cs.Scenario, "cached") && env.evicts < 1 && env.workerAtIssuer0() && env.certHash0(1) != "" {
+				for i := 0; i < 2; i++ {
+					acts = append(acts, c13Action{Kind: "evict", T: 1})
+				}
+			}
 			// second phase of the revoked scenarios: once a replacement is cached (and nobody is in
 			// flight for the name) it is revoked in turn, so that later handshakes must renew again
 			if strings.HasPrefix(cs.Scenario, "cached-revoked") && env.revokes < 2 && started < cs.Threads {
@@ -908,6 +953,27 @@ func c13Run(tier string, seed int64, outdir string, replay string) error {
 			{Kind: "arrive", T: 2}, {Kind: "release", T: 2}, {Kind: "release", T: 2, Allow: &yes}, {Kind: "release", T: 0, Outcome: "ok"}, {Kind: "release", T: 0}}
 		cs := &c13Case{Scenario: "cached-expired-nostore", Threads: 3, Seed: 400, Actions: acts}
 		if err := c13RunCase(w, cs, map[string]any{"class": "waiters-of-successful-obtain", "scenario": cs.Scenario}); err != nil {
+			return err
+		}
+	}
+	// ---- corpus: the waiters of a successful renewal find its result although the old certificate left
+	// the cache meanwhile ----
+	// cached expired certificate: handshake 0 is the (foreground) renewal worker, handshake 1 waits; while
+	// the worker is at the issuer the old certificate is removed from the cache (Cache.Remove: capacity
+	// eviction / RemoveManaged); the issuer delivers, the worker reloads: reloadManagedCertificate must put
+	// the new certificate into the cache also when there is nothing left to replace, so that the waiter,
+	// which re-enters with loading disabled, is answered with it.
+	for i, sc := range []string{"cached-expired", "cached-revoked"} {
+		var acts []c13Action
+		if sc == "cached-expired" {
+			acts = []c13Action{{Kind: "arrive", T: 0}, {Kind: "release", T: 0}, {Kind: "arrive", T: 1}, {Kind: "release", T: 1},
+				{Kind: "release", T: 0, Allow: &yes}, {Kind: "release", T: 0}, {Kind: "evict", T: 1}, {Kind: "release", T: 0, Outcome: "ok"}, {Kind: "release", T: 0}}
+		} else {
+			acts = []c13Action{{Kind: "arrive", T: 0}, {Kind: "arrive", T: 2}, {Kind: "release", T: 1, Allow: &yes}, {Kind: "release", T: 1},
+				{Kind: "evict", T: 1}, {Kind: "release", T: 1, Outcome: "ok"}, {Kind: "release", T: 1}}
+		}
+		cs := &c13Case{Scenario: sc, Threads: 3, Seed: int64(700 + i), Actions: acts}
+		if err := c13RunCase(w, cs, map[string]any{"class": "old-certificate-evicted-during-renewal", "scenario": cs.Scenario}); err != nil {
 			return err
 		}
 	}
